@@ -67,6 +67,33 @@ def _build_dfa(src):
                 delta[q, a] = rng.choice(names[2:] * 3 + acc)
         from gambatools.dfa import DFA
         return DFA(set(names), set(sy), delta, rng.choice(names), set(acc))
+    elif src["kind"] == "counter_dfa":
+        # states that are told apart only by LONG words: counters modulo m, "at least k a's" chains (b: loop or sink),
+        # a tail followed by a cycle - a refinement that stops one round early merges states here
+        from gambatools.dfa import DFA
+        rng = random.Random(src["seed"])
+        shape = src["seed"] % 4
+        m = rng.randint(4, 7)
+        Q = ["c%d" % i for i in range(m)]
+        if shape == 0:
+            delta = {(q, "a"): Q[(i + 1) % m] for i, q in enumerate(Q)}
+            return DFA(set(Q), {"a"}, delta, Q[0], {Q[rng.randrange(m)]})
+        if shape == 1:
+            delta = {}
+            for i, q in enumerate(Q):
+                delta[q, "a"] = Q[min(i + 1, m - 1)]
+                delta[q, "b"] = q
+            return DFA(set(Q), {"a", "b"}, delta, Q[0], {Q[m - 1]})
+        if shape == 2:
+            sink = "z"
+            delta = {(sink, "a"): sink, (sink, "b"): sink}
+            for i, q in enumerate(Q):
+                delta[q, "a"] = Q[i + 1] if i + 1 < m else q
+                delta[q, "b"] = sink
+            return DFA(set(Q) | {sink}, {"a", "b"}, delta, Q[0], {Q[m - 1]})
+        t = rng.randint(1, m - 2)
+        delta = {(q, "a"): (Q[i + 1] if i + 1 < m else Q[t]) for i, q in enumerate(Q)}
+        return DFA(set(Q), {"a"}, delta, Q[0], {Q[m - 1]} | ({Q[0]} if rng.random() < 0.3 else set()))
     elif src["kind"] == "late_split_dfa":
         return U.late_split_dfa(random.Random(src["seed"]))
     else:
@@ -94,6 +121,9 @@ def dfa_srcs(task):
     elif task["kind"] == "late_split_dfa":
         for i in range(task["count"]):
             yield {"kind": "late_split_dfa", "seed": task["seed"] * 100000 + i}
+    elif task["kind"] == "counter_dfa":
+        for i in range(task["count"]):
+            yield {"kind": "counter_dfa", "seed": task["seed"] * 100000 + i}
     elif task["kind"] == "cyclic_dfa":
         for i in range(task["count"]):
             yield {"kind": "cyclic_dfa", "seed": task["seed"] * 100000 + i}
